@@ -26,11 +26,11 @@ import (
 
 func init() {
 	kit.Register(&kit.Spec{
-		ID: "C01",
-		Rule: "A: per tx type, output/reference amount vectors (edge values, uniform, and vectors CONSTRUCTED so the int64-wrapped sum equals inputs-fee) fed to the type's own CheckTransactionFee, chain.CheckTransactionFee and GetTxFeeMap; B: signed TransferAsset (v0/v9) spending real mature UTXOs with such vectors submitted to AppendToTxPool and inside blocks via ProcessBlock, over-claiming coinbases, followed by an exact conservation replay of the node's chain. distinct = distinct (type, vector); non-trivial = every amount individually valid (>=0) and the fee check was reached",
-		Shards:  func(tier string) int { return 8 },
-		Run:     runC01,
-		Require: []string{"A_fee_checks", "A_wrap_constructed", "A_accepted_honest", "B_pool_submissions", "B_block_submissions", "B_accepted_honest", "B_conservation_replays", "A_types_reached"},
+		ID:          "C01",
+		Rule:        "A: per tx type, output/reference amount vectors (edge values, uniform, and vectors CONSTRUCTED so the int64-wrapped sum equals inputs-fee) fed to the type's own CheckTransactionFee, chain.CheckTransactionFee and GetTxFeeMap; B: signed TransferAsset (v0/v9) spending real mature UTXOs with such vectors submitted to AppendToTxPool and inside blocks via ProcessBlock, over-claiming coinbases, followed by an exact conservation replay of the node's chain. distinct = distinct (type, vector); non-trivial = every amount individually valid (>=0) and the fee check was reached",
+		Shards:      func(tier string) int { return 8 },
+		Run:         runC01,
+		Require:     []string{"A_fee_checks", "A_wrap_constructed", "A_accepted_honest", "B_pool_submissions", "B_block_submissions", "B_accepted_honest", "B_conservation_replays", "A_types_reached"},
 		Assumptions: []string{"math/big is correct", "regnet parameters with CheckRewardHeight=0 (coinbase amount errors are not discarded)"},
 	})
 }
